@@ -98,6 +98,16 @@ def run(prog, rep):
                 continue
             r2 = branch_on_enum_call(fn, m[0])
             if r2 is None:
+                # the lookup result may pass through Option::copied / cloned / a named temporary
+                # before it is matched: take the Option switch whose scrutinee derives from it
+                cands = []
+                for sb in sorted(fn.reachable_blocks([m[0].target or m[0].block])):
+                    inf = fn.switch_info(sb)
+                    if inf and inf.get("kind") == "enum" and inf["adt"].endswith("option::Option") and re.match(r"^\*?(Option::(copied|cloned)\()?HashMap::get\(&arg2, .*\)$", fn.sym(inf["place"])):
+                        cands.append((inf, sb))
+                if cands:
+                    r2 = cands[0]
+            if r2 is None:
                 rep.fail("UNDECIDED rule=C25.ACC FragmentSpread arm: memo lookup result not matched directly")
                 continue
             inf3, _ = r2
@@ -121,7 +131,7 @@ def run(prog, rep):
     else:
         rep.finding("C25.MEMO", fn.name, "memo-store", "the memo does not store a depth relative to the spread point (stored: %s)" % v[:120], ins[0].loc())
     memo_reads = [a for (b, op, a, l) in cmps if "HashMap::get" in a]
-    if memo_reads and all(re.match(r"^Add\(arg3, \*?HashMap::get\(&arg2, .*\)(\.0)?$", a) for a in memo_reads):
+    if memo_reads and all(re.match(r"^Add\(arg3, \*?(Option::(copied|cloned)\()?HashMap::get\(&arg2, .*\)(\.0)?$", a) for a in memo_reads):
         rep.instance("C25.MEMO", "memo is read as depth_so_far + memoised relative depth")
     else:
         rep.finding("C25.MEMO", fn.name, "memo-read", "the memoised depth is not added to depth_so_far when read (%s)" % [a[:80] for a in memo_reads], fn.loc())
